@@ -31,6 +31,20 @@ def bounded(pb, interp, rng, tier):
                         continue
                     if len(y) != n or not np.allclose(np.asarray(y.data), want, rtol=0, atol=1e-6 * max(1, N)):
                         fail("bound-request.value", inst, f"len {len(y)}", f"{n} samples equal to z[{k}:{k + n}]")
+    # integer-valued samples: a fractional start still interpolates (band-limited shift of the data as numbers)
+    for dt_ in (np.int16, np.int64):
+        ev += 1
+        x = (np.arange(32) % 7 * 13 - 40).astype(dt_)
+        z = pb.Signal(x, sample_rate=1 * u.kHz, start_time=Time("2020-01-01T00:00:00", scale="utc"))
+        try:
+            y = np.asarray(pb.snippet(z, 4.5, 6).data, dtype=float)
+            X = np.fft.fft(x.astype(float))
+            k = np.fft.fftfreq(32, 1)
+            want = np.fft.ifft(X * np.exp(2j * np.pi * k * 4.5)).real[:6]
+            if y.shape != (6,) or np.max(np.abs(y - want)) > 1e-3 * np.max(np.abs(x)):
+                fail("fractional.integer-data", f"{np.dtype(dt_).name} data, t=4.5, n=6", f"max error {np.max(np.abs(y - want)):.3g}", "DFT interpolation of the samples")
+        except Exception as e:
+            fail("fractional.integer-data.raises", f"{np.dtype(dt_).name}", f"{type(e).__name__}: {e}", "6 interpolated samples")
     # out-of-range requests must raise whatever integer type carries t
     for N, t, n in ((255, np.uint8(250), 10), (255, np.array(250, dtype=np.uint8), 10), (40000, np.uint16(39000), 30000), (40000, np.int16(32000), 9000), (2048, np.float16(2048), 1)):
         ev += 1
